@@ -579,6 +579,7 @@ func describeData(d *astits.DemuxerData) string {
 			var desc []byte
 			for _, x := range e.ElementaryStreamDescriptors {
 				desc = append(desc, x.Tag, x.Length)
+				desc = append(desc, x.UserDefined...)
 				if x.Unknown != nil {
 					desc = append(desc, x.Unknown.Content...)
 				}
